@@ -727,7 +727,7 @@ func interpretSVG(doc []byte) *displayList {
 					dl.problem("svg-size", "the document is %.6g mm x %.6g mm (width=%q height=%q), the canvas is %g x %g mm", wmm, hmm, am["width"], am["height"], CW, CH)
 				}
 				sx, sy := wmm/vb[2], hmm/vb[3]
-				if math.Abs(sx-sy) > 1e-9*math.Max(sx, sy) {
+				if !(math.Abs(sx-sy) <= 1e-9*math.Max(sx, sy)) {
 					// preserveAspectRatio (default xMidYMid meet) would apply: uniform scale, centred
 					s := math.Min(sx, sy)
 					dl.tally("svg-viewbox-aspect-differs")
